@@ -122,14 +122,24 @@ def run(chk, only=None):
                 "feeding one-hot noise through a patched torch.randn; non-trivial = covariance not 1x1 and not identity; plus "
                 "(lzdef) Lanczos-side sampling from rank-deficient / mixed-rank batches (Dense, ConstantMul, Matmul; n in {12, 30}; both dtypes) and "
                 "(hist) every explicit method= of root_decomposition / root_inv_decomposition called on the same object before sampling "
-                "(default and small max_root_decomposition_size; every PSD catalogue class at n = 3, ConstantMul / Kronecker / Dense at n = 150)")
+                "(default and small max_root_decomposition_size; every PSD catalogue class at n = 3, ConstantMul / Kronecker / Dense at n = 150); "
+                "(roots) Chol both orientations / symeig root / KroneckerAddedDiag constant-diagonal root / BatchRepeat member map vs the Lean model, "
+                "(shapes) size-1 batch dims x k in {1, 2} x {default, ciq}, (deriv) getitem / add_jitter / add_low_rank / cat_rows / scaling / added diagonal of every PSD "
+                "catalogue class after {no, cholesky, root_decomposition, root_inv_decomposition, diagonalization} cached on the parent, "
+                "(ciq-precond) recorded rhs / weights / shifts / preconditioner vs sum_q w_q K (s_q P - K)^-1 (S z)")
     chk.assumptions += ["a draw x = L z with z ~ N(0, I) has covariance L L^T (probability theory not modelled)",
                         "torch.randn is only used for the sampler's own noise inside zero_mean_mvn_samples frames",
                         "root_decomposition correctness is C06's property; here R R^T is compared with the dense covariance with the tolerance of the root method"]
-    chk.prove("LinOp.Properties.C18", ["LinOp/C18", "LinOp/Core"])
+    # ---- translator: source text of every mirrored sampler / root override -> lean/LinOp/Generated/C18Facts.lean
+    from ..extract import c18_samplers
+    facts = c18_samplers.generate()
+    translator_crosscheck(chk, c18_samplers, dict(facts))
+    chk.prove("LinOp.Properties.C18", ["LinOp/C18", "LinOp/Core", "LinOp/Generated/C18Facts.lean"])
     noise = Noise()
     torch.randn = noise
     lines, expect = [], []
+    import time as _t0
+    t_run0 = _t0.time()
     try:
         quick = chk.tier == "quick"
         dtypes = [torch.float64, torch.float32]
@@ -178,6 +188,18 @@ def run(chk, only=None):
             c18_gaps.lzdef_cases(chk, noise, settings, only, lines, expect, mat_line)
         if not only or only.startswith("C18/hist/"):
             c18_gaps.hist_cases(chk, noise, settings, only, extra_instances)
+        import time as _time
+        t_ext = _time.time()
+        from . import c18_ext
+        if not only or only.startswith(("C18/roots/", "C18/shapes/")):
+            c18_ext.ext_cases(chk, noise, settings, only, lines, expect, mat_line)
+        from . import c18_deriv
+        if not only or only.startswith("C18/deriv/"):
+            c18_deriv.deriv_cases(chk, noise, settings, only)
+        chk.extra["c18_session5_families_s"] = round(_time.time() - t_ext, 1)
+        chk.extra["c18_earlier_families_s"] = round(t_ext - t_run0, 1)
+        if __import__("os").environ.get("VERIF_C18_TIMING"):
+            print(f"[C18 timing] earlier families {chk.extra['c18_earlier_families_s']}s, session-5 families {chk.extra['c18_session5_families_s']}s", file=sys.stderr)
     finally:
         torch.randn = noise.real
     outs = chk.run_driver("C18", lines)
@@ -185,6 +207,15 @@ def run(chk, only=None):
         for o, (cell, want, tol) in zip(outs, expect):
             if o in ("bad-op", "none"):
                 chk.corr_break(cell + "/layout", f"driver answered {o}", {"cell": cell})
+                continue
+            if isinstance(want, tuple) and want[0] == "members":
+                # BatchRepeat: the model names, for every output member, the base member whose root it must equal
+                got_idx = [int(v) for v in o.split(",")]
+                if len(got_idx) == len(want[1]) and all(g in hits for g, hits in zip(got_idx, want[1])):
+                    chk.traces_validated += 1
+                else:
+                    chk.corr_break(cell + "/layout", f"model member map {got_idx} vs implementation (base members with an equal root) {want[1]}",
+                                   {"cell": cell, "seed": chk.seed, "tier": chk.tier})
                 continue
             got = torch.tensor(parse_mat(o), dtype=torch.float64)
             if close(got, want, tol):
@@ -194,6 +225,32 @@ def run(chk, only=None):
                 # covariance check above; here it is a correspondence break
                 chk.corr_break(cell + "/layout", f"model layout {got.flatten()[:6].tolist()} vs impl {want.flatten()[:6].tolist()}",
                                {"cell": cell, "seed": chk.seed, "tier": chk.tier})
+
+
+def translator_crosscheck(chk, ex, facts):
+    """Dynamic cross-check of the translator: the functions found by `ast` in the files are the ones bound at run time
+    (same normalised text from inspect.getsource of the run-time attribute)."""
+    import ast
+    import importlib
+    import inspect
+    import textwrap
+    for key, rel, cls, func in ex.TARGETS:
+        if facts.get(key, "<absent>") == "<absent>":
+            chk.proof_break("translator(C18Facts)", f"{key}: {cls}.{func} not found in {rel}")
+            continue
+        mod = importlib.import_module(rel[:-3].replace("/", "."))
+        obj = getattr(getattr(mod, cls), func, None) if cls else getattr(mod, func, None)
+        try:
+            obj = inspect.unwrap(obj)
+            fn = ast.parse(textwrap.dedent(inspect.getsource(obj))).body[0]
+            txt = ex._norm(fn.body)
+        except Exception as e:
+            chk.count("translator_dynamic_unavailable")
+            continue
+        if txt not in facts[key]:
+            chk.proof_break("translator(C18Facts)", f"{key}: run-time {cls}.{func} differs from the text extracted from {rel}")
+        else:
+            chk.count("translator_dynamic_ok")
 
 
 def one_case(chk, noise, it, dtype, batch, k, cname, cfg, cell, lines, expect, settings):
@@ -280,6 +337,9 @@ def one_case(chk, noise, it, dtype, batch, k, cname, cfg, cell, lines, expect, s
         from linear_operator.operators import LinearOperator
         if cname == "ciq" and not f32 and n > 1 and type(op).zero_mean_mvn_samples is LinearOperator.zero_mean_mvn_samples:
             ciq_tie(chk, noise, op, A, L, k, batch, n, members, cell, lines, expect)
+        if cname == "ciq-precond" and not f32 and n > 1 and type(op).zero_mean_mvn_samples is LinearOperator.zero_mean_mvn_samples:
+            from . import c18_ext
+            c18_ext.precond_tie(chk, noise, op, A, k, batch, n, members, cell)
         # ---- Kronecker root above max_cholesky_size: Kronecker product of the factor roots (Lean: kronFlat / kron_cov)
         if cname == "lanczos" and not f32 and type(op).__name__ == "KroneckerProductLinearOperator":
             root = op.root_decomposition().root
@@ -439,6 +499,6 @@ def replay(chk, payload):
         return run(chk)
     chk.rng = random.Random(f"C18:{p.get('seed', 0)}")
     chk.tier = p.get("tier", chk.tier)
-    if cell.startswith(("C18/lzdef/", "C18/hist/")):
+    if cell.startswith(("C18/lzdef/", "C18/hist/", "C18/roots/", "C18/shapes/", "C18/deriv/")):
         return run(chk, only=cell)  # per-cell random streams: the payload cell re-creates exactly that input
     run(chk, only=cell.split("/")[0] + "/" + "/".join(cell.split("/")[1:3]))
